@@ -24,6 +24,9 @@ def run(ck):
     mon = window.WindowMonitor(ck)
     mons = [mon]
     base = ck.seed * 1000003 + 41
+    for r_ in range(1 if not ck.thorough() else 24):
+        if ck.mine(r_):
+            long_lived(ck, mons, base + 7000 + r_, 300 if not ck.thorough() else 700)
 
     def leaf(sc, path):
         sc.settle()
@@ -179,8 +182,50 @@ def run(ck):
         ck.count('walks')
 
 
+def long_lived(ck, mons, seed, rounds):
+    """ONE IKE_SA, hundreds of answered exchanges in both directions (Message IDs 64, 128, 256 ... are passed); every 7th request is delivered twice and
+    every 11th response twice. The window monitor judges every step; here: each exchange completes and the copy of a request gets the stored octets."""
+    sc = walk.Scenario(seed, mons, dict(dpd=600, lifetime=36000), handshake=True)
+    sim = sc.sim
+    sim.tick_dt = None
+    sim.case.update({'family': 'long-lived', 'rounds': rounds})
+    if not sc.ok:
+        return
+    for k in range(rounds):
+        x = 'A' if k % 3 else 'B'
+        ep, other = sc.ep(x), sc.peer(x)
+        sa = next((q for q in ep.ctl.ike_sas if q.state.name == 'ESTABLISHED'), None)
+        if sa is None:
+            ck.violation('ike-sa-lost-during-a-long-series-of-answered-exchanges', {'round': k}, sim.case)
+            return
+        mid = sa.my_msg_id
+        sc.trigger(x, 'dpd' if k % 5 else 'acquire')
+        reqs = [d for d in sim.net if d.dst == str(other.addrs[0])]
+        if k % 7 == 0 and reqs:
+            req = reqs[0]
+            sim.drain()
+            n0 = len(sim.wire)
+            first = [w[3] for w in sim.wire if w[1] == str(other.addrs[0]) and w[3][20:24] == req.data[20:24] and w[3][19] & 0x20][-1:]
+            sim.inject(other, req.src, req.dst, req.data)
+            again = [d.data for d in sim.net if d.dst == str(ep.addrs[0])]
+            ck.count('long_lived.requests_delivered_twice')
+            if not first or again != first:
+                ck.violation(f"copy-of-the-preceding-request-not-answered-with-the-stored-octets:message-id-{'64-or-above' if mid >= 64 else 'low'}",
+                             {'message_id': mid, 'answers_to_the_copy': len(again), 'same': again == first}, sim.case)
+                return
+        sim.drain()
+        ck.count('long_lived.exchanges')
+        if sa.state.name != 'ESTABLISHED' or sa.my_msg_id != mid + 1:
+            ck.violation(f"answered-request-not-completed:message-id-{'64-or-above' if mid >= 64 else 'low'}", {'round': k, 'message_id': mid, 'state': sa.state.name}, sim.case)
+            return
+    ck.seen('long_lived.highest_message_id', max(q.my_msg_id for e in sim.eps.values() for q in e.ctl.ike_sas))
+    ck.nontrivial(('long-lived', rounds))
+
+
 def verdict(ck):
     c = ck.counters
+    ck.floor('answered exchanges on one long-lived IKE_SA', c['long_lived.exchanges'], 250)
+    ck.floor('requests of that IKE_SA delivered twice', c['long_lived.requests_delivered_twice'], 30)
     ck.floor('replays arriving more than 20 s (virtual) after the original', c['late_replays_after_more_than_20_s'], 300)
     ck.floor('authentic requests with a critical unknown payload', c['critical_unknown.requests'], 200)
     ck.floor('replays of the preceding request', c['win.replay_of_previous_request'], 500)
